@@ -75,6 +75,9 @@ def run(ck, ctx):
             lambda n: isinstance(n, ast.If) and "dialect_by_name" in ast.unparse(n.test) and "output_mode" in ast.unparse(n.test),
             S.is_self_call("parse_data"), "Parser.run: mode validation dominates parse_data()",
             "an unknown mode is rejected before anything is parsed; a known mode never raises here")
+    # ---- no process-wide state in the formatter (a cache keyed without the mode makes one mode's presentation leak into another)
+    S.t_noglobal(ck, ctx, "C10")
+    S.t_class_defaults(ck, ctx)
     # ---- T-MODE.fields
     base_fields = dc.dc_fields((BASE_MOD, "BaseData"))
     for mode in sorted(dc.dialect_by_name):
